@@ -169,6 +169,11 @@ func TestC09(t *testing.T) {
 							}
 							sv, err := d.GetConditional(su, nme, api.SecretVersion(v))
 							check("db", sv, err)
+							if sv != nil { // the caller wipes what it was given, as callers of a secrets store do
+								for k := range sv.Value {
+									sv.Value[k] = 0
+								}
+							}
 							sv, err = cl.GetIfChanged(ctx, nme, api.SecretVersion(v))
 							check("http", sv, err)
 							sv, err = fc.GetIfChanged(ctx, nme, api.SecretVersion(v))
@@ -203,10 +208,11 @@ func TestC09(t *testing.T) {
 		}
 		staleNotModified(t, r, dir)
 		handWrittenFiles(r, dir)
+		wrappedVersions(t, r, dir)
 		differentVAtOnce(t, r, dir)
 		auditFailureIsNotNotModified(t, r, dir)
 	}
-	r.Require("overlapping_polls_with_different_v", "conditional_gets_with_failing_audit", "hand_written_file_entries", "post_quiescence_conditional_gets", "concurrent_conditional_gets", "histories", "db_notchanged", "db_value", "http_notchanged", "http_value", "file_notchanged", "file_value", "denied_checks",
+	r.Require("out_of_range_versions", "overlapping_polls_with_different_v", "conditional_gets_with_failing_audit", "hand_written_file_entries", "post_quiescence_conditional_gets", "concurrent_conditional_gets", "histories", "db_notchanged", "db_value", "http_notchanged", "http_value", "file_notchanged", "file_value", "denied_checks",
 		"shape_reactivated_older_version", "shape_v_existing_inactive", "shape_v_names_deleted_version", "shape_v_beyond_latest")
 	r.Rule("seeded histories of 15-30 put/activate/delete-version/delete steps over 2 names; after every step conditional gets with V in {0, 1, active, every version number up to latest (existing and deleted), latest+1, 2^32-1} on both names and an absent one, through db.GetConditional, HTTP handler + setec.Client, and FileClient on a file generated from the model; plus a caller without get permission. Distinct = (front end, class of V, model outcome)")
 }
@@ -562,4 +568,48 @@ func auditFailureIsNotNotModified(t *testing.T, r *evid.Run, dir string) {
 		}
 	}
 	r.Distinct("conditional get with failing audit log")
+}
+
+// wrappedVersions: hand-made requests whose V does not fit the 32-bit version type (k*2^32 + active, decimal
+// strings, floats): such a V names no version that ever existed, so whatever else the server says, it must
+// not say "not modified".
+func wrappedVersions(t *testing.T, r *evid.Run, dir string) {
+	d, err := realdb.Open(filepath.Join(dir, "wrapped.db"), realdb.DummyKey("c09w"))
+	if err != nil {
+		t.Fatal(err)
+	}
+	su := realdb.Super()
+	for v := 1; v <= 3; v++ {
+		d.Put(su, "polled", []byte(fmt.Sprintf("bytes-of-%d", v)))
+	}
+	srv, err := httpdrv.New(d)
+	if err != nil {
+		t.Fatal(err)
+	}
+	srv.SetWho(addr, httpdrv.Who{Login: "ok@verif", Node: "ok", Rules: []refmodel.Rule{{Actions: []string{"get"}, Patterns: []string{"*"}}}})
+	for _, active := range []uint32{1, 3, 2} {
+		d.Activate(su, "polled", api.SecretVersion(active))
+		for _, lit := range []string{
+			fmt.Sprint(uint64(1)<<32 + uint64(active)), fmt.Sprint(uint64(2)<<32 + uint64(active)), fmt.Sprint(uint64(1000)<<32 + uint64(active)),
+			fmt.Sprintf("%q", fmt.Sprint(uint64(1)<<32+uint64(active))), fmt.Sprintf("%d.0", uint64(1)<<32+uint64(active)), fmt.Sprintf("%de0", uint64(1)<<32+uint64(active)),
+			fmt.Sprintf("-%d", uint64(1)<<32-uint64(active)), "18446744073709551617",
+		} {
+			body := []byte(fmt.Sprintf(`{"Name":"polled","Version":%s,"UpdateIfChanged":true}`, lit))
+			rep := srv.Raw("POST", "/api/get", addr, httpdrv.GoodHeaders, body)
+			r.Eval(1)
+			r.Count("out_of_range_versions", 1)
+			if rep.Status == 304 {
+				r.Violation("http-value-although-unchanged", -1, fmt.Sprintf("a conditional get with Version %s (no such version ever existed; the active one is %d) was answered 304 not modified", lit, active), nil)
+				return
+			}
+			if rep.Status == 200 {
+				var sv api.SecretValue
+				if json.Unmarshal(rep.Body, &sv) != nil || uint32(sv.Version) != active || string(sv.Value) != fmt.Sprintf("bytes-of-%d", active) {
+					r.Violation("http-wrong-version-or-bytes", -1, fmt.Sprintf("a conditional get with Version %s was answered 200 with %s; the active version is %d", lit, rep.Body, active), nil)
+					return
+				}
+			}
+		}
+	}
+	r.Distinct("out-of-range versions")
 }
